@@ -73,7 +73,19 @@ def strip_ts(text):
     return [l for l in text.replace(", \"timestamp\"", "\n\"timestamp\"").splitlines() if '"timestamp"' not in l]
 
 
-def eval_case(base, sub, with_repo, with_version):
+def eval_case(base, sub, with_repo, with_version, ambient=False):
+    """ambient: a repository is configured process-wide (as `codelimit scan` inside a GitHub checkout does) while the
+    report is written and read - it must not leak into a report that has none"""
+    from codelimit.common.Configuration import Configuration
+    from codelimit.common.GithubRepository import GithubRepository
+
+    try:
+        return _eval_case(base, sub, with_repo, with_version, ambient)
+    finally:
+        Configuration.repository = None
+
+
+def _eval_case(base, sub, with_repo, with_version, ambient=False):
     from codelimit.common.report.ReportReader import ReportReader
     from codelimit.common.report.ReportWriter import ReportWriter
 
@@ -96,6 +108,14 @@ def eval_case(base, sub, with_repo, with_version):
     if docs["pretty"][1] != docs["compact"][1]:
         out.append(("pretty-and-compact-differ", {}, f"fields={fields}"))
     text, doc = docs["pretty"]
+    if ambient:
+        # from here on (reading, re-writing) a repository is configured process-wide
+        from codelimit.common.Configuration import Configuration
+        from codelimit.common.GithubRepository import GithubRepository
+
+        Configuration.repository = GithubRepository("ambient-owner", "ambient-name", branch="ambient-branch")
+    if not with_repo and "repository" in doc:
+        out.append(("document-content-wrong", {"what": "repository-written-for-a-report-without-one"}, repr(doc.get("repository"))))
     # the document says what the report holds
     want_doc_files = [p for p, _, _, _ in files]
     if doc.get("root") != v["root"] or list(doc["codebase"]["files"].keys()) != want_doc_files:
@@ -157,15 +177,16 @@ def cases(tier):
 
 def _block(block, agg):
     for base, sub, wr, wv in block:
-        case = {"base": base, "sub": sub, "repo": wr, "version": wv}
-        viol = eval_case(base, sub, wr, wv)
+        ambient = (len(sub) <= 1 and core.digest([base, sub, wr, wv]) % 2 == 0)
+        case = {"base": base, "sub": sub, "repo": wr, "version": wv, "ambient": ambient}
+        viol = eval_case(base, sub, wr, wv, ambient)
         agg.case(case, bool(sub) and any(s != "a" for s in sub.values()), "ok" if not viol else viol[0][0], sample=len(sub) == 2)
         for k, sig, d in viol:
             agg.violation(k, sig, case, d)
 
 
 def replay(case):
-    return [{"kind": k, "sig": s, "detail": d} for k, s, d in eval_case(case["base"], case["sub"], case["repo"], case["version"])]
+    return [{"kind": k, "sig": s, "detail": d} for k, s, d in eval_case(case["base"], case["sub"], case["repo"], case["version"], case.get("ambient", False))]
 
 
 def run(ctx: core.Ctx):
